@@ -13,6 +13,17 @@ Families
               2 kinds x {add, remove}; the full battery runs after the last
               operation (every prefix is itself one of the histories)
 
+Batteries: `battery` (about 45 comparisons: touched namespace, one namespace
+below/elsewhere, touched kind + decls + one other kind, all three modes, both
+`none`, point lookups, reverse lookups, traversal queries), `light_battery`
+(about 15; only on thorough-tier histories beyond the first 10 000) and
+`full_battery` (every query on every namespace the history mentions).
+
+A divergence ends its history and is shrunk (greedy one-operation removal that
+keeps the same query/rule) before it is written as a witness.  The one listed
+finding (C16-D1, reverse entry dropped by a same-name removal of another kind)
+is reported once per history WITHOUT ending it.
+
 A history is JSON: {"ops": [["add", kind, [ns..], name, vid|null] |
 ["rm", kind, [ns..], name]], "names": [...], "qseed": int, ...}; `vid` names
 the value object (same vid = same object), null = artificial None entry.
